@@ -406,7 +406,7 @@ func checkStartupWalk(c *Ctx, rule string) {
 				filterBlocks[f] = true
 			}
 		}
-		isWalk := func(ins ssa.Instruction) bool {
+		isWalkBase := func(ins ssa.Instruction) bool {
 			call, ok := ins.(*ssa.Call)
 			if !ok {
 				return false
@@ -423,6 +423,9 @@ func checkStartupWalk(c *Ctx, rule string) {
 			}
 			return false
 		}
+		// the walk may sit in an extracted part: a call of a helper that always runs it is the walk
+		isWalkLifted := viaHelpers("startup-walk", isWalkBase, true)
+		isWalk := func(ins ssa.Instruction) bool { return isWalkLifted(ins) }
 		nScan := 0
 		for _, part := range p.regionTop(sw) {
 			for _, ci := range callsOf(part) {
